@@ -33,7 +33,7 @@
 template <typename T1, typename T2>
 constexpr auto max(const T1 x, const T2 y) noexcept -> common_t<T1, T2>
 {
-    return (y < x ? x : y);
+    return (y != y ? x : (y < x ? x : y)); // a NaN is missing data: the other argument
 }
 
 #endif
